@@ -162,6 +162,7 @@ PROPS["C06"] = {
 }
 
 PROPS["C16"] = {
+    "thorough_seeds": 3,      # driver seeds per thorough run (default 4); fitted to keep one run within about 20 minutes
     "title": "multi-scalar and double-scalar multiplication return the exact combination",
     "technique": 'TLA+ Straus / double-scalar spec model-checked on a miniature curve + TLC trace validation over list shapes, operand classes and aliasing (both build configurations)',
     "level": "model_checking",
@@ -240,6 +241,7 @@ PROPS["C09"] = {
                   "first RFC candidate.",
     "level_note": "trusted: TLC, BigInt/EcMul/SHA-256 overrides (self-tested), harness logging; TupleHash is uninterpreted (the property does not pin it)",
     "exhaustive": [{"spec": "MC_Nonce", "params": "mini43"},
+                   {"spec": "MC_Nonce", "params": "mini43", "cfg": "MC_Nonce_buggy.cfg", "expect_violation": "NonceIsAcceptedCandidate"},
                    {"spec": "NonceInd", "engine": "apalache", "files": ["Nonce.tla", "NonceInd.tla"]},
                    {"spec": "NonceProof", "engine": "tlaps", "files": ["Nonce.tla", "NonceProof.tla"]}],
     "drivers": [{"driver": "nonce", "trace": "Trace_Ecdsa", "shards": 16}],
@@ -387,6 +389,7 @@ PROPS["C15"] = {
 }
 
 PROPS["C18"] = {
+    "thorough_seeds": 2,      # driver seeds per thorough run (default 4); fitted to keep one run within about 20 minutes
     "title": "no invalid objects via the API; aliasing and caller mutation are harmless",
     "technique": 'TLA+ state machine of the public API (Api.tla): points, scalars, buffers, ECDSA / BIP-340 key objects and signatures as pool objects; exhaustive TLC exploration on a miniature curve, TLC-generated call schedules (one per call x alias pattern x byte class x context, each followed by the caller scribbling over its buffers; plus simulated histories) replayed on real objects, whole-pool trace validation',
     "level": "model_checking",
@@ -406,11 +409,13 @@ PROPS["C18"] = {
     "level_note": "trusted: TLC, BigInt/EcMul overrides (self-tested), the replayer's projection (library encoders, cross-checked by C03/C06) and recover() wrappers",
     "exhaustive": [
         {"spec": "MC_Api", "params": "mini211", "cfg": "MC_Api.cfg", "big": True},
+        {"spec": "MC_Api", "params": "mini211", "cfg": "MC_Api_bug1.cfg", "big": True, "expect_violation": "Steps"},   # a failed decode clears its receiver
+        {"spec": "MC_Api", "params": "mini211", "cfg": "MC_Api_bug2.cfg", "big": True, "expect_violation": "Steps"},   # the key aliases the import buffer
         {"spec": "MC_Api", "params": "mini211", "cfg": "MC_Api_deep.cfg", "big": True, "tiers": ("thorough",), "timeout": 7200},
     ],
     "drivers": [{"driver": "api", "trace": "Trace_Api",
                  "shape": [{"spec": "MC_Api", "cfg": "Sys_Api.cfg", "params": "mini211", "mode": "bfs", "big": True},
-                           {"spec": "MC_Api", "cfg": "Shape_Api.cfg", "params": "mini211", "num": (4, 60), "depth": 60, "procs": 16, "big": True}]}],
+                           {"spec": "MC_Api", "cfg": "Shape_Api.cfg", "params": "mini211", "num": (20, 150), "depth": 60, "procs": 16, "big": True}]}],
     "require_classes": {"quick": ["alias_recv", "alias_args", "alias_all", "kind_panic", "kind_err", "kind_ok", "uninit_operand", "decode_fail_valid_recv",
                                   "decode_fail_uninit_recv", "decode_ok", "key_ctor_ok", "key_ctor_err", "mutate_with_key", "mutate_buf_with_key",
                                   "mutate_scalar_with_key", "mutate_point_with_key", "msm", "msm_mismatch", "scalar_decode_err", "reply", "reset",
@@ -450,6 +455,7 @@ def _same_traces(work, files, drv, env):
 
 _PG = ("verif", "purego")
 PROPS["C19"] = {
+    "thorough_seeds": 1,      # driver seeds per thorough run (default 4); fitted to keep one run within about 20 minutes
     "title": "assembly and pure-Go builds are observationally identical",
     "technique": 'instruction-level TLA+ model generated from point_mul_table_amd64.s and model-checked + TLC trace validation of both lookups against the portable reference + identical-trace comparison of all arithmetic harnesses across build configurations',
     "level": "model_checking",
